@@ -519,6 +519,7 @@ DB = "nostr_relay/storage/db.py"
 KV = "nostr_relay/storage/kv.py"
 
 MUTANTS = [
+    M("c08-process-tags-gets-copy", "nostr_relay/storage/db.py", "            await self.process_tags(connection, event)\n", "            await self.process_tags(connection, __import__(\"copy\").copy(event))\n", "C08.whole"),
     M("c08-served-cache", "nostr_relay/web.py", "        try:\n            event = await self.storage.get_event(event_id)\n        except ValueError:",
       "        try:\n            event = self._seen.get(event_id) if hasattr(self, \"_seen\") else None\n            if event is None:\n                event = await self.storage.get_event(event_id)\n        except ValueError:", "C08.served"),
     M("c08-served-other-id", "nostr_relay/web.py", "            event = await self.storage.get_event(event_id)\n        except ValueError:", "            event = await self.storage.get_event(event_id.strip().lower()[:64])\n        except ValueError:", "C08.served"),
